@@ -21,6 +21,7 @@ import (
 
 	"github.com/hashicorp/go-hclog"
 	"github.com/jimlambrt/gldap"
+	"github.com/jimlambrt/gldap/testdirectory"
 )
 
 func init() { commands["worker"] = cmdWorker }
@@ -39,6 +40,7 @@ type worker struct {
 	busy     net.Listener
 	stops    int64
 	runOpts  []gldap.Option
+	dir      *testdirectory.Directory
 }
 
 func (w *worker) ev(format string, args ...interface{}) {
@@ -96,6 +98,22 @@ func (w *worker) runScript(kind string, rw *gldap.ResponseWriter, r *gldap.Reque
 					w.ev("h-write-err %d %d", r.ConnectionID(), r.ID)
 					break
 				}
+			}
+		case strings.HasPrefix(st, "F"): // F<n>x<size>: n identifiable frames "<msgid>:<i>:" padded to size
+			var n, size int
+			fmt.Sscanf(st, "F%dx%d", &n, &size)
+			for i := 0; i < n; i++ {
+				diag := fmt.Sprintf("%d:%d:", msgid, i)
+				if len(diag) < size {
+					diag += strings.Repeat("p", size-len(diag))
+				}
+				d := r.NewSearchDoneResponse(gldap.WithResponseCode(gldap.ResultSuccess))
+				d.SetDiagnosticMessage(diag)
+				if err := rw.Write(d); err != nil {
+					w.ev("h-write-err %d %d %d", r.ConnectionID(), r.ID, i)
+					break
+				}
+				w.ev("h-wrote %d %d", msgid, i)
 			}
 		case st == "hs":
 			if err := r.StartTLS(w.tlsConf); err != nil {
@@ -161,7 +179,11 @@ func cmdWorker(args []string) int {
 		case "run":
 			w.callRun()
 		case "ready":
-			w.ev("ready %v", w.srv.Ready())
+			if w.srv == nil {
+				w.ev("ready %v", w.dir != nil)
+			} else {
+				w.ev("ready %v", w.srv.Ready())
+			}
 		case "portprobe":
 			if w.busy != nil || !strings.Contains(w.addr, ":") {
 				// the port is held by the harness itself (or there is no port): the
@@ -182,6 +204,9 @@ func cmdWorker(args []string) int {
 				fds = len(ents)
 			}
 			w.ev("stats goroutines=%d fds=%d", runtime.NumGoroutine(), fds)
+		case "mutate":
+			ms, _ := strconv.Atoi(f[1])
+			w.mutateDirectory(time.Duration(ms) * time.Millisecond)
 		case "quit":
 			return 0
 		}
@@ -196,6 +221,10 @@ func (w *worker) start(opts []string) {
 		if len(p) == 2 {
 			o[p[0]] = p[1]
 		}
+	}
+	if o["dir"] == "1" {
+		w.startDirectory(o)
+		return
 	}
 	var sopts []gldap.Option
 	sopts = append(sopts, gldap.WithLogger(hclog.New(&hclog.LoggerOptions{Level: hclog.Off})))
@@ -287,5 +316,63 @@ func (w *worker) callRun() {
 		} else {
 			w.ev("run-return ok")
 		}
+	}()
+}
+
+// startDirectory hosts the real test directory (TLS by default, mTLS with
+// tls=mtls) and leaves its CA / client certificate in the cert directory
+func (w *worker) startDirectory(o map[string]string) {
+	qt := &quietT{}
+	logger := hclog.New(&hclog.LoggerOptions{Level: hclog.Off})
+	opts := []testdirectory.Option{testdirectory.WithLogger(qt, logger),
+		testdirectory.WithDefaults(qt, &testdirectory.Defaults{AllowAnonymousBind: true,
+			Users: testdirectory.NewUsers(qt, []string{"alice", "bob"})})}
+	if o["tls"] == "mtls" {
+		opts = append(opts, testdirectory.WithMTLS(qt))
+	}
+	if o["tls"] == "none" {
+		opts = append(opts, testdirectory.WithNoTLS(qt))
+	}
+	td := testdirectory.Start(qt, opts...)
+	w.dir = td
+	if o["tls"] == "none" {
+		w.addr = fmt.Sprintf("%s:%d", td.Host(), td.Port())
+		w.ev("addr %s", w.addr)
+		return
+	}
+	d := certDir()
+	_ = os.MkdirAll(d, 0o700)
+	_ = os.WriteFile(d+"/dirca.pem", []byte(td.Cert()), 0o600)
+	if o["tls"] == "mtls" {
+		_ = os.WriteFile(d+"/dirclient.pem", []byte(td.ClientCert()), 0o600)
+		_ = os.WriteFile(d+"/dirclient.key", []byte(td.ClientKey()), 0o600)
+	} else {
+		_ = os.Remove(d + "/dirclient.pem")
+		_ = os.Remove(d + "/dirclient.key")
+	}
+	w.addr = fmt.Sprintf("%s:%d", td.Host(), td.Port())
+	w.ev("addr %s", w.addr)
+}
+
+// mutateDirectory calls the directory's Set* methods and getters in a loop for
+// the given time, while clients are being served (C15)
+func (w *worker) mutateDirectory(d time.Duration) {
+	qt := &quietT{}
+	td := w.dir
+	go func() {
+		deadline := time.Now().Add(d)
+		i := 0
+		for time.Now().Before(deadline) {
+			i++
+			td.SetUsers(testdirectory.NewUsers(qt, []string{"alice", "bob", fmt.Sprintf("u%d", i%5)})...)
+			td.SetGroups(testdirectory.NewGroup(qt, "admin", []string{"alice"}))
+			td.SetAllowAnonymousBind(i%2 == 0)
+			c, _ := gldap.NewControlString("1.2.3", gldap.WithControlValue("v"))
+			td.SetControls(c)
+			_ = len(td.Users()) + len(td.Groups()) + len(td.Controls())
+			_ = td.AllowAnonymousBind()
+			time.Sleep(200 * time.Microsecond)
+		}
+		w.ev("mutate-done")
 	}()
 }
